@@ -44,6 +44,8 @@ type probe struct {
 	// DelayMs: pause before this probe is sent (a slow scan: never five seconds of silence, but spread over more
 	// than the detector's period)
 	DelayMs int `json:"delay_ms,omitempty"`
+	// Sport: the probe's source port (a scanner told to use one: nmap -g 53); 0 = a fresh one per probe
+	Sport int `json:"sport,omitempty"`
 }
 
 func (p probe) pair() string {
@@ -202,6 +204,39 @@ func scenarios(tier string, seed int64) []scenario {
 		}
 		out = append(out, sc)
 	}
+	// a scanner with one fixed source port whose port range contains that very port (and its neighbours), in
+	// several orders; in every other scenario it comes back after its report with the same port pairs
+	nf := 8
+	if tier == "thorough" {
+		nf = 80
+	}
+	for i := 0; i < nf; i++ {
+		r := core.NewRng(seed, "C20/fixed-sport", i)
+		proto := r.PickS([]string{"tcp", "tcp", "udp"})
+		sp := r.PickI([]int{53, 80, 20000, 443})
+		if proto == "udp" {
+			sp = r.PickI([]int{20000, 30000}) // udp ports the listener has no protocol decoder for
+		}
+		sc := scenario{Sources: 1 + i%2, Kind: "fixed-source-port-" + proto}
+		for s := 0; s < sc.Sources; s++ {
+			ports := []int{sp - 2, sp - 1, sp, sp + 1, sp + 2}
+			for a := len(ports) - 1; a > 0; a-- {
+				b := r.Intn(a + 1)
+				ports[a], ports[b] = ports[b], ports[a]
+			}
+			for _, pt := range ports {
+				sc.Probes = append(sc.Probes, probe{Src: s, Proto: proto, Port: pt, Sport: sp})
+			}
+		}
+		if i%4 >= 2 {
+			for _, q := range sc.Probes {
+				if q.Src == 0 {
+					sc.Again = append(sc.Again, q)
+				}
+			}
+		}
+		out = append(out, sc)
+	}
 	return out
 }
 
@@ -209,16 +244,20 @@ func srcIP(k, s int) net.IP { return net.IPv4(100, byte(64+s), byte(k>>8), byte(
 
 func frame(k int, p probe, seq int) []byte {
 	src := srcIP(k, p.Src)
+	sport := uint16(40000 + seq)
+	if p.Sport > 0 {
+		sport = uint16(p.Sport)
+	}
 	mac := net.HardwareAddr{2, 0, 0, byte(p.Src), byte(k >> 8), byte(k)}
 	var l4 []byte
 	var proto uint8
 	switch p.Proto {
 	case "tcp":
 		proto = 6
-		l4 = fr.TCP{Sport: uint16(40000 + seq), Dport: uint16(p.Port), Seq: uint32(seq) * 7, Off: -1, Flags: fr.SYN}.Marshal(src, me, nil)
+		l4 = fr.TCP{Sport: sport, Dport: uint16(p.Port), Seq: uint32(seq) * 7, Off: -1, Flags: fr.SYN}.Marshal(src, me, nil)
 	case "udp":
 		proto = 17
-		l4 = fr.UDP(src, me, uint16(40000+seq), uint16(p.Port), -1, []byte("scan"))
+		l4 = fr.UDP(src, me, sport, uint16(p.Port), -1, []byte("scan"))
 	default:
 		proto = 1
 		l4 = fr.ICMPEcho(uint16(k), uint16(seq), []byte("abcdefgh"))
